@@ -118,16 +118,20 @@ def run(ctx):
         # cyclic left-corner graphs; the history visits the one-token contexts in a random order first
         for k in range(n):
             fam = k % 3
-            if fam == 0 or sr != "bool":
+            if fam == 0 or (sr != "bool" and kind not in ("earley", "rescaled")):
                 g = M.rand_sharedcorner_grammar(ctx.rng, boolean=(sr == "bool"))
-            elif fam == 1:
-                g = M.rand_mutual_leftrec_grammar(ctx.rng)
+            elif fam == 1 or sr != "bool":
+                g = M.rand_mutual_leftrec_grammar(ctx.rng, boolean=(sr == "bool"))   # bare Earley parsers: weighted, left-recursive
             else:
                 g = M.rand_leftcorner_grammar(ctx.rng)
             firsts = [[a] for a in range(g["nT"])]
             ctx.rng.shuffle(firsts)
             qop = "p_next" if kind not in ("earley", "rescaled", "icky") else "call"
             ops = [[qop, c] for c in firsts] + [[qop, c + [ctx.rng.randrange(g["nT"])]] for c in firsts] + gen_history(ctx.rng, g["nT"], kind, 6)
+            snts = [M.random_sentence(ctx.rng, g, maxdepth=ctx.rng.randint(2, 5), maxlen=6) for _ in range(6)]
+            snts = [s_ for s_ in snts if s_]
+            ctx.rng.shuffle(snts)
+            ops = [[qop, s_] for s_ in snts] + ops     # whole sentences first, in a random order (different entry points into the cycle)
             jobs.append({"g": g, "sr": sr, "kind": kind, "ops": ops, "fresh_compare": True})
         res = run_lm(jobs, hashseed=ctx.rng.randint(0, 3))
         for job, r in zip(jobs, res):
